@@ -62,6 +62,9 @@ SNIPPETS = [
     ('int32 cast truncates toward zero', "def f(a, b, v):\n    return np.int32((a - 0.5) * 7)\n"),
     ('comprehension over an array', "def f(a, b, v):\n    return np.array([x * 2 + 1 for x in b])\n"),
     ('zeros_like and column assignment', "def f(a, b, v):\n    r = np.zeros_like(a[:, 0])\n    for j in range(3):\n        r[j] = a[j, 1] - j\n    return r\n"),
+    ('rollaxis view written through, transpose', "def f(a, b, v):\n    c = np.array([a, a * 2])\n    r = np.rollaxis(c, axis=2, start=0)\n    r[0, 0, 0] = -1.\n    return np.transpose(c, (1, 0, 2))\n"),
+    ('rollaxis forward and back', "def f(a, b, v):\n    c = np.array([a, a * 2, a * 3])\n    return np.rollaxis(np.rollaxis(c, 2, 0), 1, 3)\n"),
+    ('moveaxis', "def f(a, b, v):\n    c = np.array([a, a * 2])\n    return np.moveaxis(c, 0, 2)\n"),
     ('maximum / minimum', "def f(a, b, v):\n    return np.maximum(a, 0.5) - np.minimum(a[0], b)\n"),
 ]
 
